@@ -1,6 +1,7 @@
 package verifharness
 
 import (
+	"strings"
 	"testing"
 
 	"pgregory.net/rapid"
@@ -13,7 +14,7 @@ type c05Class struct {
 }
 
 func c05StringLeaf(rt *rapid.T, vc *valConfig, reg map[string]bool) *Val {
-	k := pick(rt, "sk", []string{"str", "str", "nstr", "sstringer", "serr", "SafeString", "svstr", "svsstringer", "regstr", "regstringer", "safe", "unsafe"})
+	k := pick(rt, "sk", []string{"str", "str", "nstr", "sstringer", "serr", "SafeString", "svstr", "svsstringer", "regstr", "regstringer", "safe", "unsafe", "embstringer"})
 	switch k {
 	case "safe", "unsafe":
 		return &Val{K: k, Sub: []*Val{vc.leafS(rt, pick(rt, "ik", []string{"str", "nstr", "sstringer", "SafeString"}), false, false)}}
@@ -66,6 +67,11 @@ func c05AnyLeaf(rt *rapid.T, vc *valConfig, reg map[string]bool) *Val {
 			return v
 		}
 	case 8:
+		if rapid.Bool().Draw(rt, "emb") {
+			v := vc.leafS(rt, "embsafe", true, false)
+			v.I = 7
+			return v
+		}
 		return c05StringLeaf(rt, vc, reg)
 	case 0, 1:
 		return c05StringLeaf(rt, vc, reg)
@@ -91,6 +97,12 @@ var c05Classes = []c05Class{
 func genC05Operand(rt *rapid.T, cl c05Class, vc *valConfig, reg map[string]bool, depth int, bare bool) *Val {
 	leaf := func() *Val { return cl.leaf(rt, vc, reg) }
 	k := rapid.IntRange(0, 11).Draw(rt, "shape")
+	if depth == 0 && cl.verbs == "v" && reg["regstruct"] && rapid.IntRange(0, 9).Draw(rt, "preg") == 4 {
+		// a top-level pointer to a registered struct: safe as a whole
+		v := vc.leafS(rt, "pregstruct", true, false)
+		v.I = 12
+		return v
+	}
 	if depth >= 2 && k >= 5 {
 		k = 0
 	}
@@ -150,7 +162,24 @@ func genC05(rt *rapid.T) *FmtCase {
 			cl = c05Classes[0]
 		}
 		c.Segs = append(c.Segs, Seg{Dir: d})
-		c.Args = append(c.Args, genC05Operand(rt, cl, vc, reg, 0, d.bare() && (string(d.Verb) == "v" || string(d.Verb) == "s")))
+		arg := genC05Operand(rt, cl, vc, reg, 0, d.bare() && (string(d.Verb) == "v" || string(d.Verb) == "s"))
+		if strings.Contains(d.Flags, "#") && string(d.Verb) == "v" {
+			// (under %#v a struct with a promoted String method is printed field by field)
+			var walk func(v *Val)
+			walk = func(v *Val) {
+				if v.K == "embstringer" {
+					v.K = "sstringer"
+				}
+				for _, x := range v.Sub {
+					walk(x)
+				}
+				for _, x := range v.Keys {
+					walk(x)
+				}
+			}
+			walk(arg)
+		}
+		c.Args = append(c.Args, arg)
 	}
 	if rapid.IntRange(0, 2).Draw(rt, "taillit") > 0 {
 		c.Segs = append(c.Segs, Seg{Lit: fc.genLit(rt)})
